@@ -142,8 +142,8 @@ Proof. exact C20_proofs.payload_intact_sequential_lemma. Qed.
 
 (* the decision table: encoding other than snappy/absent -> 415; undecodable body -> 400; method other than POST
    -> 405; Content-Type not parsable -> 415; message type not accepted -> 415; otherwise the store gets the parsed
-   type and the decompressed payload, the three written-statistics headers are set, and the status is 204 or - on a
-   store error - the store's status (500 if it set none) *)
+   type and the decompressed payload, the three written-statistics headers are set (zero if the store returned no
+   response), and the status is 204 or - on a store error - the store's status (500 if it set none) *)
 Theorem handler_decision_table :
   forall decode accepted sb r,
   (enc_ok r = false -> serve decode accepted sb r = HOut 415 None None) /\
@@ -156,9 +156,8 @@ Theorem handler_decision_table :
      parse_proto_msg (eff_ctype r) = Some t -> existsb (mtype_eqb t) accepted = false ->
      serve decode accepted sb r = HOut 415 None None) /\
   (forall d t, enc_ok r = true -> decode (h_body r) = Some d -> str_eqb (h_method r) post = true ->
-     parse_proto_msg (eff_ctype r) = Some t -> existsb (mtype_eqb t) accepted = true -> sb_nil sb = false ->
-     serve decode accepted sb r =
-     HOut (store_status sb) (Some (sb_samples sb, sb_hist sb, sb_exem sb)) (Some (t, d))).
+     parse_proto_msg (eff_ctype r) = Some t -> existsb (mtype_eqb t) accepted = true ->
+     serve decode accepted sb r = HOut (store_status sb) (Some (store_written sb)) (Some (t, d))).
 Proof. exact C20_proofs.handler_decision_table_lemma. Qed.
 
 (* for every Content-Type built from the RFC 9110 grammar (tokens, optional whitespace around ";", non-empty
@@ -168,10 +167,9 @@ Theorem content_type_params_parsed :
   forall a, wf_ast a -> parse_proto_msg (render a) = ct_spec a.
 Proof. exact C20_proofs.content_type_params_parsed_lemma. Qed.
 
-(* the handler (with a store that returns a response) satisfies the checker the harness applies to the real handler *)
+(* the handler satisfies the checker the harness applies to the real handler *)
 Theorem handler_satisfies_spec :
   forall decode accepted sb r ast,
-    sb_nil sb = false ->
     match ast with Some a => wf_ast a /\ render a = h_ctype r | None => True end ->
     handler_spec_ok decode accepted sb r ast (serve decode accepted sb r) = true.
 Proof. exact C20_proofs.handler_satisfies_spec_lemma. Qed.
@@ -183,19 +181,19 @@ Theorem handler_passes_decompressed_payload :
     forall accepted sb ctype cenc payload t,
       is_empty cenc || str_eqb cenc snappy_name = true ->
       parse_proto_msg (if is_empty ctype then app_proto else ctype) = Some t ->
-      existsb (mtype_eqb t) accepted = true -> sb_nil sb = false ->
+      existsb (mtype_eqb t) accepted = true ->
       serve decode accepted sb (mkHReq post ctype cenc (encode payload)) =
-      HOut (store_status sb) (Some (sb_samples sb, sb_hist sb, sb_exem sb)) (Some (t, payload)).
+      HOut (store_status sb) (Some (store_written sb)) (Some (t, payload)).
 Proof. exact C20_proofs.handler_passes_decompressed_payload_lemma. Qed.
 
-(* REFUTED clause "reflects the store's status": a store returning (nil, err) crashes the handler
-   (known finding store-nil-response) *)
-Theorem handler_nil_store_response_refuted :
-  exists decode accepted sb r,
-    sb_nil sb = true /\ sb_err sb = true /\
-    (exists call, serve decode accepted sb r = HPanic call) /\
-    handler_spec_ok decode accepted sb r None (serve decode accepted sb r) = false.
-Proof. exact C20_proofs.handler_nil_store_response_refuted. Qed.
+(* a store that returns (nil, err) is answered 500 with zero statistics headers, (nil, nil) 204
+   (the handler used to dereference the nil response; fixed in /repo) *)
+Theorem handler_nil_store_response :
+  forall decode accepted r d t err,
+    enc_ok r = true -> decode (h_body r) = Some d -> str_eqb (h_method r) post = true ->
+    parse_proto_msg (eff_ctype r) = Some t -> existsb (mtype_eqb t) accepted = true ->
+    serve decode accepted (mkSB true 0 0 0 0 err) r = HOut (if err then 500 else 204) (Some (0, 0, 0)) (Some (t, d)).
+Proof. exact C20_proofs.handler_nil_store_response_lemma. Qed.
 
 (* ---------- the hypotheses are satisfiable; the model computes ---------- *)
 Example write_example :
